@@ -251,6 +251,41 @@ pub fn tree_worker(prop: &str, tier: &str, k: usize, n: usize, ctx: &mut Ctx) {
         tc::c07_views(c, t);
         tc::c07_faults(c, t)
       });
+      // byte buffers that cut multi-byte sequences at their borders, as adjacent children handed over
+      // by value through add() (typed) and through new() (boxed): all ordered pairs and triples
+      {
+        let bufs: Vec<Vec<u8>> = vec![vec![0xe2, 0x82], vec![0xac], vec![0xc3], vec![0xa9, b'\n'], vec![b'a'], vec![0xff], vec![], vec![0xf0, 0x9f], vec![0x98, 0x80]];
+        let mut kids: Vec<Term> = Vec::new();
+        for b in &bufs {
+          kids.push(Term::RawBufS(b.clone()));
+          kids.push(Term::RawBuf(b.clone()));
+        }
+        let mut st = Striper::new(k, n);
+        let mut run = |ctx: &mut Ctx, children: Vec<Term>| {
+          for (typed, add) in [(true, true), (false, true), (false, false), (true, false)] {
+            if !st.mine() {
+              continue;
+            }
+            let t = Term::Concat { children: children.clone(), typed, add };
+            crate::set_current_case(&t);
+            ctx.states += 1;
+            ctx.count("adjacent_binary_children");
+            tc::c07_views(ctx, &t);
+          }
+        };
+        for a in &kids {
+          for b in &kids {
+            run(ctx, vec![a.clone(), b.clone()]);
+            if matches!(a, Term::RawBufS(_)) && matches!(b, Term::RawBufS(_)) {
+              for c in kids.iter().step_by(2) {
+                run(ctx, vec![a.clone(), b.clone(), c.clone()]);
+                run(ctx, vec![Term::orig("x", "x.js"), a.clone(), b.clone(), c.clone()]);
+              }
+            }
+          }
+        }
+        crate::clear_current_case();
+      }
       // faults over a reduced general scope (each tree runs size+~20 writers)
       let mut sc = general_scope(tier);
       sc.repl_max_leaf = 1;
@@ -276,6 +311,47 @@ pub fn tree_worker(prop: &str, tier: &str, k: usize, n: usize, ctx: &mut Ctx) {
         }
       });
       crate::clear_current_case();
+      // NAMED replacements over composites whose children announce names of their own, lazily (a later
+      // child's names arrive after a replacement name was allocated): the two numbering sites of
+      // ReplaceSource must draw from one counter
+      {
+        use crate::term::Repl;
+        let nv = trees::named_variants();
+        let mut st = Striper::new(k, n);
+        for a in &nv {
+          for b in &nv {
+            let inner = Term::concat(vec![a.clone(), b.clone()]);
+            let len = crate::model::model_text(&inner).len() as u32;
+            for s0 in 0..=len {
+              for e0 in s0..=(s0 + 2).min(len + 1) {
+                if !st.mine() {
+                  continue;
+                }
+                for content in ["", "X"] {
+                  for name in ["zz", "n1"] {
+                    let mut sets = vec![vec![Repl::new(s0, e0, content).named(name)]];
+                    // a second named replacement at every later position (quick: a third of them)
+                    for s1 in e0..=len {
+                      if tier == "thorough" || (s0 + e0 + s1) % 3 == 0 {
+                        sets.push(vec![Repl::new(s0, e0, content).named(name), Repl::new(s1, (s1 + 1).min(len + 1), "Q").named("late")]);
+                      }
+                    }
+                    for set in sets {
+                      for w in [Term::replace(inner.clone(), set.clone()), Term::cached(Term::replace(inner.clone(), set.clone())), Term::concat(vec![Term::replace(inner.clone(), set.clone()), b.clone()])] {
+                        crate::set_current_case(&w);
+                        ctx.states += 1;
+                        ctx.count("named_replacements_over_named_composites");
+                        tc::c11(ctx, &w);
+                      }
+                    }
+                  }
+                }
+              }
+            }
+          }
+        }
+        crate::clear_current_case();
+      }
     }
     _ => panic!("no tree worker for {prop}"),
   }
@@ -538,6 +614,38 @@ pub fn c06_worker(tier: &str, k: usize, n: usize, ctx: &mut Ctx) {
           visit(ctx, &Term::Concat { children: vec![a.clone(), Term::concat(vec![b.clone(), c.clone()])], typed: true, add: true });
         }
       }
+    }
+  }
+  // Concat with a ReplaceSource child: the parent positions the next child from the end information
+  // the ReplaceSource returns. Every single replacement (pairs in thorough) over a few inner
+  // sources, in front of and behind every mapped sibling of the reduced pool
+  {
+    let o = |t: &str| Term::orig(t, &trees::file_for(t, trees::TEXTS_FULL));
+    let rinners: Vec<Term> = vec![o("a"), o("a;b"), o("a\nb"), Term::raw("a"), pool.iter().find(|t| matches!(t, Term::Sms(_))).unwrap().clone(), small[0].clone()];
+    let sibs: Vec<Term> = small.iter().filter(|t| !matches!(t, Term::Raw(_) | Term::Cached(_) | Term::Replace(..))).step_by(2).cloned().collect();
+    for inner in &rinners {
+      let text = crate::model::model_text(inner);
+      let rs = trees::ReplScope {
+        names2: false,
+        contents1: &["", "X", "\n", "Y\nZ"],
+        contents2: &["", "X", "\n"],
+        names1: false,
+        enforce1: false,
+        max: if tier == "thorough" { 2 } else { 1 },
+        over: 2,
+        text: &text,
+      };
+      trees::for_each_replset(&rs, &mut |set| {
+        let r = Term::replace(inner.clone(), set);
+        for b in &sibs {
+          if st.mine() {
+            visit(ctx, &Term::concat(vec![r.clone(), b.clone()]));
+          }
+          if st.mine() {
+            visit(ctx, &Term::concat(vec![b.clone(), r.clone()]));
+          }
+        }
+      });
     }
   }
   // Replace: every pool element and every pair of the reduced pool as inner, all replacement sets
